@@ -607,6 +607,11 @@ func genOp(c *simkit.Choices, sh *shared, taskIdx int) *op {
 			shape = model.Tagged{Name: "t", In: val.I}
 		}
 		if c.N(3) == 0 {
+			// Inner NESTED INSIDE an inlined struct: what is compiled for the
+			// inlined type depends on this iterator's folders
+			shape = model.HolderInline{X: "x", Sub: model.HolderSub{A: val.I}, Deep: model.HolderSub{L: []model.Inner{val.I}}}
+		}
+		if c.N(3) == 0 {
 			// the SHARED option value, alone or with a second option of this task
 			own := c.Bool()
 			desc := OpDesc{Kind: "shared-folder-option", Format: string(f), Variant: variant}
